@@ -397,6 +397,11 @@ class Verifier:
             if s2.check() == z3.sat:
                 res.model = self.extract_model(ex, s2.model(), o, env)
                 res.info["model_stage"] = "quantifier-free relaxation (candidate only)"
+                if o.kind == "must-raise":
+                    # a normal return on a path where the contract demands an exception: the path is reachable as far as
+                    # the quantifier-free facts go and the solver could not show otherwise
+                    res.status = REFUTED
+                    res.reason = "normal return where an exception is required; path condition satisfiable (quantifier-free relaxation)"
         return res
 
     def extract_model(self, ex: Exec, m: z3.ModelRef, o: Obligation, env: dict | None = None) -> dict:
